@@ -94,12 +94,17 @@ func c19Handshake(modDir string, rules []string, addr string) (out string, err e
 	if err != nil {
 		return "", err
 	}
+	return c19Ask(srv, "mod", addr)
+}
+
+// c19Ask requests a complete listing of one module of srv as client addr.
+func c19Ask(srv *rsyncd.Server, module, addr string) (out string, err error) {
 	name := addr + ":4711"
 	if strings.Contains(addr, ":") {
 		name = "[" + addr + "]:4711"
 	}
 	var in bytes.Buffer
-	in.WriteString("@RSYNCD: 27\nmod\n--server\n--sender\n-r\n.\nmod/\n\n")
+	in.WriteString("@RSYNCD: 27\n" + module + "\n--server\n--sender\n-r\n.\n" + module + "/\n\n")
 	in.Write([]byte{0, 0, 0, 0})                                                 // empty filter list
 	in.Write([]byte{255, 255, 255, 255, 255, 255, 255, 255, 255, 255, 255, 255}) // -1 -1 -1: end of phases and goodbye
 	var outb bytes.Buffer
@@ -108,15 +113,96 @@ func c19Handshake(modDir string, rules []string, addr string) (out string, err e
 	return outb.String(), nil
 }
 
+// c19BuildNeighbours: one server with three modules whose names are prefixes
+// of one another ("mo", "mod", "module"), each with its own rule list; the
+// verdict for a module must follow that module's list only, in whatever order
+// the modules are configured and whichever was asked before on the same server.
+func c19BuildNeighbours(tier string) core.Source {
+	rules, addrs := c19Pool(tier)
+	lists := [][]string{nil}
+	for _, r := range rules {
+		lists = append(lists, []string{r})
+	}
+	lists = append(lists, []string{"allow 10.1.2.0/24", "deny all"}, []string{"deny 10.1.2.3/32", "allow 10.0.0.0/8", "deny all"})
+	type cs struct{ x, y int }
+	var cases []cs
+	for x := range lists {
+		for y := range lists {
+			cases = append(cases, cs{x, y})
+		}
+	}
+	return core.FuncSource{N: len(cases), F: func(i int) core.Result {
+		c := cases[i]
+		z := (c.x + 2*c.y + 1) % len(lists)
+		acl := map[string][]string{"mo": lists[c.x], "mod": lists[c.y], "module": lists[z]}
+		res := core.Result{Case: fmt.Sprintf("three modules on one server: mo=%q mod=%q module=%q", acl["mo"], acl["mod"], acl["module"]), Counters: map[string]int64{}}
+		dir := workDir()
+		defer cleanup(dir)
+		order := [][]string{{"mo", "mod", "module"}, {"module", "mod", "mo"}, {"mod", "module", "mo"}}[i%3]
+		var mods []rsyncd.Module
+		for _, n := range order {
+			d := filepath.Join(dir, n)
+			os.MkdirAll(d, 0o755)
+			os.WriteFile(filepath.Join(d, "data-of-"+n), []byte(n), 0o644)
+			mods = append(mods, rsyncd.Module{Name: n, Path: d, ACL: acl[n]})
+		}
+		srv, err := rsyncd.NewServer(mods, rsyncd.DontRestrict(), rsyncd.WithStderr(discard{}), rsyncd.WithLogger(nullLogger{}))
+		if err != nil {
+			res.Inconcl = err.Error()
+			return res
+		}
+		grants, denies := 0, 0
+		for ai, addr := range addrs {
+			// the order in which one server is asked rotates with the address
+			for k := 0; k < 3; k++ {
+				n := []string{"mo", "mod", "module"}[(k+ai)%3]
+				out, err := c19Ask(srv, n, addr)
+				res.Counters["states"]++
+				res.Counters["transitions"]++
+				res.Counters["traces_validated_against_impl"]++
+				if err != nil {
+					res.Inconcl = err.Error()
+					return res
+				}
+				want := c19Ref(acl[n], addr)
+				rest := strings.TrimPrefix(out, "@RSYNCD: 27\n")
+				granted := strings.HasPrefix(rest, "@RSYNCD: OK\n")
+				if granted != want {
+					sym := "granted_but_must_refuse"
+					if want {
+						sym = "refused_but_must_grant"
+					}
+					res.Fail = core.Fail(sym, fmt.Sprintf("module=%s addr=%s acl=%q (neighbours: %s) reply=%q", n, addr, acl[n], res.Case, trunc(rest, 120)), "part", "neighbours")
+					return res
+				}
+				for _, other := range []string{"mo", "mod", "module"} {
+					if other != n && strings.Contains(rest, "data-of-"+other+"\x00") || (granted && !strings.Contains(rest, "data-of-"+n)) {
+						res.Fail = core.Fail("wrong_module_served", fmt.Sprintf("module=%s addr=%s reply=%q", n, addr, trunc(rest, 200)), "part", "neighbours")
+						return res
+					}
+				}
+				if granted {
+					grants++
+				} else {
+					denies++
+				}
+			}
+		}
+		res.Outcome = fmt.Sprintf("grants>0=%v/denies>0=%v", grants > 0, denies > 0)
+		res.Nontrivial = grants > 0 && denies > 0
+		return res
+	}}
+}
+
 func init() {
 	core.Register(&core.Prop{
 		ID:    "C19",
 		Level: "model_checking",
 		Rule: "every ACL rule list of length 0..3 over the rule pool (allow/deny x {all, nested and disjoint IPv4/IPv6 prefixes} + 4 malformed rules), each evaluated by a real daemon handshake + listing request for every address of the address pool; " +
-			"a case (one rule list) is non-trivial when it has at least one rule and both grant and refusal occur among its addresses or a malformed rule is reached; states = (rule list, address) pairs, transitions = handshakes",
+			"neighbours: one server with three modules mo, mod, module (configured in 3 orders), every pair of rule lists of length <=1 (+2 longer ones) on the first two and a rotating third, every module asked from every address in rotating order on the same server: each verdict must follow that module's own list and only its own data may be served. a case (one rule list) is non-trivial when it has at least one rule and both grant and refusal occur among its addresses or a malformed rule is reached; states = (rule list, address) pairs, transitions = handshakes",
 		Assum: []string{"reference evaluator (netip based bit-prefix comparison) is correct", "connection name is host:port as produced by net.Conn.RemoteAddr"},
 		Parts: func(tier string) []core.Part {
-			return []core.Part{{Name: "lists", Build: func(tier string) core.Source {
+			return []core.Part{{Name: "neighbours", Build: c19BuildNeighbours}, {Name: "lists", Build: func(tier string) core.Source {
 				rules, addrs := c19Pool(tier)
 				var lists [][]string
 				lists = append(lists, nil)
